@@ -66,6 +66,9 @@ cdef class _QueryResponse:
     @cython.locals(maybe_entry=DNSRecord)
     cdef bint _has_mcast_record_in_last_second(self, DNSRecord record)
 
+    @cython.locals(maybe_entry=DNSRecord, entry=DNSRecord)
+    cdef DNSRecord _get_unique_ignoring_scope(self, DNSRecord record)
+
     cdef QuestionAnswers answers(self)
 
 cdef class QueryHandler:
